@@ -145,6 +145,29 @@ func init() {
 			e.allocLimit = int(e.concretize(a[0].(*Term)))
 			return done(nil)
 		},
+		"Overlaps": func(e *Exec, fr *Frame, fn *ssa.Function, a []Value) (Value, int) {
+			x, y := a[0].(SliceVal), a[1].(SliceVal)
+			if x.Back == nil || y.Back == nil || x.Back != y.Back {
+				return done(tFalse)
+			}
+			z := konst(0)
+			ne := And(Not(Eq(x.Len, z)), Not(Eq(y.Len, z)))
+			return done(And(ne, And(CmpBV(OpSLt, x.Off, BinBV(OpAdd, y.Off, y.Len)), CmpBV(OpSLt, y.Off, BinBV(OpAdd, x.Off, x.Len)))))
+		},
+		"Follows": func(e *Exec, fr *Frame, fn *ssa.Function, a []Value) (Value, int) {
+			x, y := a[0].(SliceVal), a[1].(SliceVal)
+			if x.Back == nil || y.Back == nil || x.Back != y.Back {
+				return done(tFalse)
+			}
+			return done(Or(Eq(y.Len, konst(0)), Eq(BinBV(OpAdd, x.Off, x.Len), y.Off)))
+		},
+		"SameStart": func(e *Exec, fr *Frame, fn *ssa.Function, a []Value) (Value, int) {
+			x, y := a[0].(SliceVal), a[1].(SliceVal)
+			if x.Back == nil || y.Back == nil || x.Back != y.Back {
+				return done(tFalse)
+			}
+			return done(Eq(x.Off, y.Off))
+		},
 		"SameBacking": func(e *Exec, fr *Frame, fn *ssa.Function, a []Value) (Value, int) {
 			x, y := a[0].(SliceVal), a[1].(SliceVal)
 			return done(Bool(x.Back != nil && x.Back == y.Back))
